@@ -76,6 +76,9 @@ func H_rec_rename() {
 	oi := verifRecIndex(oldp)
 	c := verifU32("cookie")
 	verifAssume(c != 0)
+	// any number of renames may have been seen before: the cookie ring index is arbitrary
+	w.cookieIndex = verifU8("ringindex")
+	verifAssume(w.cookieIndex <= 9)
 	ev1, ok1 := verifDeliverName(w, verifRecT[pi].wd, unix.IN_MOVED_FROM|unix.IN_ISDIR, c, m.old)
 	verifAssert(ok1 && ev1.Op == Rename && ev1.Name == oldp, "rename of an inner directory: Rename(old path)")
 	// the kernel resolves the new name to the moved directory's inode: its existing watch
